@@ -213,6 +213,74 @@ example : ∃ o o', leEmbedModel exδ2 2 1 true 1 (by decide) 1 exHeatLe (bruteS
         (fun i j _ _ => by unfold exδ2; simp only [if_true]; split_ifs <;> norm_num) k hk) exLeSolver
   exact ⟨o, o', ho, ho', hL, hD, hY⟩
 
+/-- **laplacian_eigenmaps_permutation_equivariant.**  Re-order the samples by any permutation `π`, tie-free distances,
+    any two exact searches (one per ordering), positive `exp` oracle: both runs of the composed Laplacian Eigenmaps model
+    succeed with the same k sequence and final `k'`; the second graph is the relabelled first up to the order inside
+    each list; the pencil handed to the solver is the relabelled pencil, `L' = Π L Πᵀ`, `D' = Π D` (the heat adjacency of
+    duplicate-free lists depends on the edge SET only: `adj_of_nodup`); if `(V, λ)` meets the solver contract
+    `GenEigSystem` for `(L, D)` then `(ΠV, λ)` meets it for `(L', D')`; and with that outcome the returned coordinates are
+    the re-ordered rows `Y' = ΠY`. -/
+theorem laplacian_eigenmaps_permutation_equivariant (π : Equiv.Perm (Fin N)) (δ : Nat → Nat → K) (hN : 0 < N)
+    {k : Nat} (hk : 1 ≤ k) (hkN : k ≤ N - 1) {d : Nat} (hd : 1 + d ≤ N) (width : K) (heat : K → K)
+    (hheat : ∀ x, 0 < heat x)
+    (htf : ∀ i, i < N → ∀ a ∈ List.range N, ∀ b ∈ List.range N, δ i a = δ i b → a = b)
+    (search search' : Nat → Graph) (hlen : ∀ k, (search k).length = N)
+    (hexact : ∀ k, k ≤ N - 1 → ∀ u (hu : u < (search k).length), IsExactKnn δ (List.range N) k u (search k)[u])
+    (hlen' : ∀ k, (search' k).length = N)
+    (hexact' : ∀ k, k ≤ N - 1 → ∀ u (hu : u < (search' k).length),
+      IsExactKnn (fun a b => δ (pOf π a) (pOf π b)) (List.range N) k u (search' k)[u])
+    (solver solver' : Mat N N K → Vec N K → Mat N N K × Vec N K) :
+    ∃ o o', leEmbedModel δ N k true d hd width heat search solver = .ok o ∧
+      leEmbedModel (fun a b => δ (pOf π a) (pOf π b)) N k true d hd width heat search' solver' = .ok o' ∧
+      (o.V, o.lam) = solver o.L o.D ∧ (o'.V, o'.lam) = solver' o'.L o'.D ∧
+      o'.found.k = o.found.k ∧ o'.found.tried = o.found.tried ∧
+      SameEdges (relabel o.found.graph (permList π) (permList π.symm)) o'.found.graph N ∧
+      (∀ i j, o'.L i j = o.L (π i) (π j)) ∧ (∀ i, o'.D i = o.D (π i)) ∧
+      (GenEigSystem (Mat.toM o.L) (Matrix.diagonal o.D) (Mat.toM o.V) o.lam →
+        GenEigSystem (Mat.toM o'.L) (Matrix.diagonal o'.D) ((Mat.toM o.V).submatrix π id) o.lam) ∧
+      ((∀ i c, o'.V i c = o.V (π i) c) → ∀ i c, o'.Y i c = o.Y (π i) c) := by
+  obtain ⟨o, ho, ⟨j, hkj, -⟩, ⟨-, hglen, hex⟩, ⟨hu, -, hLD, -⟩, ⟨hS, hY, -⟩⟩ :=
+    laplacian_eigenmaps_end_to_end δ hN hk hkN hd width heat hheat search hlen hexact solver
+  obtain ⟨o', ho', -, ⟨-, hglen', hex'⟩, ⟨hu', -, hLD', -⟩, ⟨hS', hY', -⟩⟩ :=
+    laplacian_eigenmaps_end_to_end (fun a b => δ (pOf π a) (pOf π b)) hN hk hkN hd width heat hheat search' hlen'
+      hexact' solver'
+  have hp := isPermPair π
+  have huS : ∀ k, k ≤ N - 1 → Uniform (search k) N k := fun k hk' => uniform_of_exact (hlen k) (hexact k hk')
+  have huS' : ∀ k, k ≤ N - 1 → Uniform (search' k) N k := fun k hk' => uniform_of_exact (hlen' k) (hexact' k hk')
+  have heq : ∀ k, k ≤ N - 1 → SameEdges (relabel (search k) (permList π) (permList π.symm)) (search' k) N :=
+    fun k hk' => sameEdges_of_exact π htf (hlen k) (hexact k hk') (hlen' k) (hexact' k hk')
+  have hrun := result_order_independent search search' hN hp huS huS' heq (findFuel N) k
+  rw [le_model_found ho, le_model_found ho'] at hrun
+  obtain ⟨hk', htr, hg, hg'⟩ := hrun
+  have hk'le : o.found.k ≤ N - 1 := by rw [hkj]; exact Nat.min_le_right _ _
+  have hse : SameEdges (relabel o.found.graph (permList π) (permList π.symm)) o'.found.graph N := by
+    rw [hg, hg']; exact heq _ hk'le
+  have hnd := nodup_of_exact hex
+  have hnd' := nodup_of_exact hex'
+  have hpair : (∀ i j, o'.L i j = o.L (π i) (π j)) ∧ (∀ i, o'.D i = o.D (π i)) := by
+    have hL : o.L = (computeLaplacian heat (fun i j : Fin N => δ i.1 j.1) width (nbOf hu)).1 := congrArg Prod.fst hLD
+    have hD : o.D = (computeLaplacian heat (fun i j : Fin N => δ i.1 j.1) width (nbOf hu)).2 := congrArg Prod.snd hLD
+    have hL' := congrArg Prod.fst hLD'
+    have hD' := congrArg Prod.snd hLD'
+    simp only at hL' hD'
+    rw [hL, hD, hL', hD']
+    clear hLD' hL' hD' hex'
+    generalize o'.found.k = kk at hu' hk'
+    subst hk'
+    exact computeLaplacian_perm π hu hu' hnd hnd' hse heat δ width
+  have hLM : Mat.toM o'.L = (Mat.toM o.L).submatrix π π := by
+    ext i j; simp only [Mat.toM_apply, Matrix.submatrix_apply, hpair.1]
+  have hDM : Matrix.diagonal o'.D = (Matrix.diagonal o.D).submatrix π π := by
+    ext i j
+    simp only [Matrix.diagonal_apply, Matrix.submatrix_apply, hpair.2, π.injective.eq_iff]
+  refine ⟨o, o', ho, ho', hS, hS', hk', htr, hse, hpair.1, hpair.2, ?_, ?_⟩
+  · intro hsys
+    rw [hLM, hDM]
+    exact genEigSystem_perm π hsys
+  · intro hV i c
+    rw [hY', hY]
+    simp only [cols, Mat.toM_apply, hV]
+
 end le
 
 /-! ### Non-vacuity
@@ -278,5 +346,23 @@ example : ∃ o o', isomapEmbedModel exLine 4 1 true 1 (bruteSearch exLine 4) .l
       (fun k hk => bruteSearch_exact (by decide) (exLine_self (pOf (Equiv.swap (0 : Fin 4) 1))) k hk)
       .lazy .indexed (fun _ _ => 0) (fun _ _ => 1) exSolver exSolver exSqrt exSqrt
   exact ⟨o, o', ho, ho', hk, hG, hB⟩
+
+section leExample
+open TapkeeVerif.LeCompose
+
+/-- non-vacuity: the tie-free line data `exLine` (below) with the transposition `0 ↔ 1`, brute-force search on both
+    orderings -/
+example : ∃ o o' : LeOut 4 2 ℚ, (∀ i j, o'.L i j = o.L (Equiv.swap (0 : Fin 4) 1 i) (Equiv.swap (0 : Fin 4) 1 j)) ∧
+    (∀ i, o'.D i = o.D (Equiv.swap (0 : Fin 4) 1 i)) ∧ o'.found.k = o.found.k := by
+  obtain ⟨o, o', -, -, -, -, hk, -, -, hL, hD, -⟩ :=
+    laplacian_eigenmaps_permutation_equivariant (Equiv.swap (0 : Fin 4) 1) exLine (by decide) (k := 1) (by decide)
+      (by decide) (d := 2) (by decide) 5 exHeatLe exHeatLe_pos exLine_tieFree (bruteSearch exLine 4) _
+      (bruteSearch_length exLine 4) (fun k hk => bruteSearch_exact (by decide) (exLine_self id) k hk)
+      (bruteSearch_length _ 4)
+      (fun k hk => bruteSearch_exact (by decide) (exLine_self (pOf (Equiv.swap (0 : Fin 4) 1))) k hk)
+      (fun _ _ => (fun _ _ => 0, fun _ => 0)) (fun _ _ => (fun _ _ => 0, fun _ => 0))
+  exact ⟨o, o', hL, hD, hk⟩
+
+end leExample
 
 end TapkeeVerif.EquivCompose
